@@ -1,7 +1,7 @@
 (** C18 — top level: the program [comp_regex r] accepts exactly the words matched by an
     anchored pattern [^ mid $] (words without line breaks). *)
 From Coq Require Import List NArith Bool Arith Lia Setoid.
-From Acg Require Import Base.Outcome Model.RevmTree Model.Revm Model.RevmVM Model.RevmComp
+From Acg Require Import Base.Outcome Model.RevmTree Model.Revm Model.RevmVM Model.RevmComp Model.RevmShape
   Proofs.RevmFrag Proofs.RevmCompCorrect.
 Import ListNotations.
 
@@ -159,9 +159,6 @@ Proof.
 Qed.
 
 (** ** the anchors and the [.*$] suffix *)
-Definition t_start : term := Term (VSym SStart) None.
-Definition t_end : term := Term (VSym SEnd) None.
-
 Lemma rpow_dot_to_end : forall w, no_linebreak w -> forall n j,
   j + n = length w -> rpow (dsym w SDot) n j (length w).
 Proof.
